@@ -44,6 +44,9 @@ mod lemmas {
     fn nan_not_le() { let a: f64 = kani::any(); let b: f64 = kani::any(); kani::assume(a.is_nan()); assert!(!(a <= b)); }
     #[kani::proof]
     fn inf_not_le_one() { assert!(!(f64::INFINITY <= 1.0)); }
+    /// s_to_usize(x) = x as usize, s_clamp = f64::clamp, s_of_usize(5) = 5usize as f64
+    #[kani::proof]
+    fn clamp_cast_le5() { let x: f64 = kani::any(); assert!((x.clamp(1.0, 5usize as f64) as usize) <= 5); }
     /// vacuity guard: a false float claim must be refuted (the engine requires this harness to FAIL)
     #[kani::proof]
     fn vacuity_probe_must_fail() {
